@@ -208,12 +208,12 @@ class WSGIContainer:
         .. versionchanged:: 6.3
            No longer a static method.
         """
-        hostport = request.host.split(":")
-        if len(hostport) == 2:
-            host = hostport[0]
-            port = int(hostport[1])
-        else:
-            host = request.host
+        # Splitting on ":" would take an IPv6 literal apart and fails on
+        # an empty port ("example.com:").
+        host, port = httputil.split_host_and_port(request.host)
+        if port is None:
+            if host.endswith(":"):
+                host = host[:-1]
             port = 443 if request.protocol == "https" else 80
         environ = {
             "REQUEST_METHOD": request.method,
